@@ -25,8 +25,11 @@ Why(s, ev) == IF s.numIters # ev.ni THEN "num_iters"
               ELSE IF Len(s.qs) # Len(ev.qs) THEN "quantizer_set"
               ELSE IF \E j \in 1..Len(s.qs) : ~Near(s.qs[j].val, ev.qs[j][3]) THEN "quantizer_factor"
               ELSE "quantizer_storage"
+\* the knob value a quantizer was constructed with is read off the Start event (1 by default, 0 for a quantizer that
+\* was pre-trained without quantization noise)
+V0(e) == IF e[3] = 1048576 THEN ROne ELSE IF e[3] = 0 THEN RZero ELSE <<e[3], 1048576>>
 Q0For(ev) == [j \in 1..Len(ev.qs) |->
-                 IF ev.qs[j][1] = 1 THEN QBuild(QNew(ROne, FALSE), ev.qs[j][2] = 1) ELSE QNew(ROne, FALSE)]
+                 IF ev.qs[j][1] = 1 THEN QBuild(QNew(V0(ev.qs[j]), FALSE), ev.qs[j][2] = 1) ELSE QNew(V0(ev.qs[j]), FALSE)]
 Cands(s, a) == IF a = "Call" THEN {CallAll(s)}
                ELSE (IF HookEnabled(s, a) THEN {HookApply(s, a)} ELSE {})
                     \cup (IF HookEnabled(s, a) THEN {HookApply(CallAll(s), a)} ELSE {})
@@ -36,7 +39,13 @@ Step ==
   /\ l <= Len(Tr)
   /\ l' = l + 1
   /\ LET ev == Tr[l] IN
-     IF ev.a = "Start" THEN
+     IF ev.a = "BigSchedule" THEN       \* long schedules (beyond the exact rational model): factors observed at increasing steps
+        /\ UNCHANGED <<st, ok>>
+        /\ IF \E k \in 1..Len(ev.fs) : ev.fs[k] < 0 \/ ev.fs[k] > 1048576 THEN PrintT(<<"REJECT", ev.t, l, "BigSchedule", "factor_outside_unit_interval">>)
+           ELSE IF \E k \in 1..(Len(ev.fs) - 1) : ev.fs[k + 1] < ev.fs[k] THEN PrintT(<<"REJECT", ev.t, l, "BigSchedule", "factor_decreased">>)
+           ELSE IF ev.fs[1] # 0 \/ ev.fs[Len(ev.fs)] # 1048576 THEN PrintT(<<"REJECT", ev.t, l, "BigSchedule", "end_points">>)
+           ELSE TRUE
+     ELSE IF ev.a = "Start" THEN
         LET s0 == SInit(ev.sp, Q0For(ev)) IN
         IF Matches(s0, ev) THEN st' = s0 /\ ok' = TRUE
         ELSE PrintT(<<"REJECT", ev.t, l, "Start", Why(s0, ev)>>) /\ st' = s0 /\ ok' = FALSE
